@@ -72,6 +72,20 @@ def run(case):
         repr(rd)
     except Exception as e:
         raise Violation("totality", f"{tname}: to_text() raised {type(e).__name__}: {e} for wire {w.hex()}", "to_text:" + tname + ":" + type(e).__name__)
+    # the legacy keyword spellings of the chunk options (to_text(chunksize=, separator=)) must be
+    # accepted and mean the same as the style fields
+    st0 = case.get("style") or {}
+    if "base64_chunk_size" in st0 or "hex_chunk_size" in st0 or "hex_chunk_separator" in st0:
+        cs = st0.get("base64_chunk_size", st0.get("hex_chunk_size", 32))
+        sep = st0.get("hex_chunk_separator", " ")
+        try:
+            t_kw = rd.to_text(chunksize=cs, separator=sep)
+            t_eq = rd.to_styled_text(dns.rdata.RdataStyle(base64_chunk_size=cs, hex_chunk_size=cs, base64_chunk_separator=sep, hex_chunk_separator=sep))
+        except Exception as e:
+            raise Violation("totality", f"{tname}: to_text(chunksize={cs!r}, separator={sep!r}) raised {type(e).__name__}: {e}", "to_text-keywords:" + type(e).__name__)
+        if t_kw != t_eq:
+            raise Violation("roundtrip", f"{tname}: to_text(chunksize={cs!r}, separator={sep!r}) gives {t_kw!r}, the equivalent style {t_eq!r}", "keywords-differ:" + tname)
+        classes.append("legacy-keywords")
     if lossy:
         classes.append("text-lossy")
         # parsing the text may legitimately fail or lose information; it must only not crash
@@ -583,7 +597,7 @@ def run_fieldlimit(case):
 def parts(tier):
     per_type = {"quick": 30, "thorough": 300}[tier]
     req = {("acc:" + t): per_type for t in TEXT_TYPES}
-    req.update({"relativize_to:parent": 300, "relativize_to:root": 100, "relative-name-printed": 200, "derelativized": 200, "escape": 500, "multi-chunk": 100, "text-lossy": 50})
+    req.update({"legacy-keywords": 2000, "relativize_to:parent": 300, "relativize_to:root": 100, "relative-name-printed": 200, "derelativized": 200, "escape": 500, "multi-chunk": 100, "text-lossy": 50})
     n_types = len(TEXT_TYPES)
     return [
         Part("text", run, strategy=cases(TEXT_TYPES), n={"quick": 400 * n_types, "thorough": 5000 * n_types},
